@@ -54,7 +54,8 @@ Theorem code_update_best (tf : TheFittest G P) (p : list indiv) :
   update_best G P (abs_best tf) (Z.to_nat (tf_no_update_counter G P tf)) p
   = (abs_best tf', Z.to_nat (tf_no_update_counter G P tf')).
 Proof.
-  intros Hp Hinf Hc. cbv zeta. unfold py_TheFittest__update, py_TheFittest__replace, update_best. cbv zeta.
+  intros Hp Hinf Hc. cbv zeta. unfold py_TheFittest__update, py_TheFittest__replace, update_best,
+    set_tf_genotype, set_tf_phenotype, set_tf_fitness, set_tf_no_update_counter. cbv zeta.
   rewrite (best_of_argmax p Hp).
   set (k := argmax (map ifit p)).
   assert (Hk : (k < length p)%nat).
@@ -125,14 +126,16 @@ Theorem code_remains (self : EvolutionaryAlgorithm G P) :
 Proof. unfold py_EvolutionaryAlgorithm_get_remains_calls. lia. Qed.
 
 (* the constructor's state: nothing recorded, counter 0, calls 0, aim = aim_of *)
-Theorem code_init iters pop_size minimization optimal err nin :
-  let self := py_EvolutionaryAlgorithm_init G P dG dP iters pop_size minimization optimal err nin in
+Theorem code_init iters pop_size minimization optimal err nin elitism keep_history n_jobs has_cb :
+  let self := py_EvolutionaryAlgorithm_init G P dG dP iters pop_size minimization optimal err nin elitism keep_history n_jobs has_cb in
   abs_best (ea_thefittest G P self) = None /\ tf_no_update_counter G P (ea_thefittest G P self) = 0 /\
-  ea_calls G P self = 0 /\ abs_aim (ea_aim G P self) = aim_of minimization optimal err /\ ea_aim G P self <> NegInf.
+  ea_calls G P self = 0 /\ abs_aim (ea_aim G P self) = aim_of minimization optimal err /\ ea_aim G P self <> NegInf /\
+  ea_stats G P self = [] /\ snd (ea_on_generation G P self) = 0.
 Proof.
-  cbv zeta. unfold py_EvolutionaryAlgorithm_init. cbv zeta. cbn [ea_thefittest ea_calls ea_aim].
+  cbv zeta. unfold py_EvolutionaryAlgorithm_init. cbv zeta. cbn [ea_thefittest ea_calls ea_aim ea_stats ea_on_generation snd].
   repeat split.
   - apply code_get_aim. reflexivity.
   - unfold py_EvolutionaryAlgorithm__get_aim. destruct optimal; discriminate.
 Qed.
+
 End Tie.
